@@ -10,7 +10,7 @@ for n in sys.argv[2:]:
         shutil.rmtree(d)
     shutil.copytree(src, d)
     notes = open(os.path.join(d, 'NOTES.md')).read() if os.path.exists(os.path.join(d, 'NOTES.md')) else ''
-    json.dump({'property': P, 'round': 2 if int(n) > 2 else 1,
-               'source': 'independent sub-agent given only the property text (round 2: plus summaries of the round-1 changes) and a scratch worktree',
+    json.dump({'property': P, 'round': 1 if int(n) <= 2 else (2 if int(n) <= 4 else 3),
+               'source': 'independent sub-agent given only the property text (rounds 2-3: plus one-line summaries of the earlier seeded changes) and a scratch worktree',
                'needs': notes[:1500]}, open(os.path.join(d, 'meta.json'), 'w'), indent=1)
     print('imported', d)
